@@ -25,22 +25,26 @@ import pickle
 
 from common import CORPUS_DIR, InfraError, call
 
-RULE = ("histories of 2..12 operations: public mutators (translate_rotate on scenario / obstacle / prediction / network / "
-        "lanelet level, setters of prediction shape / trajectory / wheelbase / assignments, obstacle initial_state / prediction / "
-        "update_prediction / update_initial_state with bounds 1..4 and the default, add_lanelet / add_lanelets_from_network / remove_lanelet with and without "
-        "rtree, convert_to_2d, deepcopy, pickle, cycle_elements / time_offset / active setters, replacing a light's cycle) "
-        "interleaved with queries (occupancy_at_time at / after the initial step, prediction.occupancy_at_time_step, state_at_time, "
-        "history lists, find_lanelet_by_position / by_shape at places the lanelets occupy now and occupied before, lanelet polygon / "
-        "distance / inner_distance, get_state_at_time_step around the phase boundaries of the old and the new cycle); every mutator "
-        "is preceded by a query that fills the cache it could leave stale and followed by one that reads it. "
-        "distinct = canonical JSON of the history; non-trivial = contains query -> mutator -> query on the same cache")
+RULE = ("histories of 2..14 operations: public mutators (translate_rotate on scenario / obstacle / prediction / network level, on a "
+        "free lanelet, on a lanelet a network holds and on the trajectory a prediction holds; Trajectory.append_state on a held "
+        "trajectory; setters of prediction shape / trajectory (a new object, or the same object edited in place and re-assigned) / "
+        "wheelbase / assignments, obstacle initial_state / prediction / update_prediction / update_initial_state with bounds 1..6, "
+        "the default and bounds lowered later, add_lanelet / add_lanelets_from_network / remove_lanelet with and without rtree, "
+        "convert_to_2d on network / scenario / free lanelet / held lanelet, deepcopy, pickle, cycle_elements / time_offset / active "
+        "setters, replacing a light's cycle) interleaved with queries (occupancy_at_time at / after the initial step, "
+        "prediction.occupancy_at_time_step, state_at_time, history lists, find_lanelet_by_position / by_shape at places the lanelets "
+        "occupy now and occupied before, lanelet polygon / distance / inner_distance, get_state_at_time_step around the phase "
+        "boundaries of the old and the new cycle); every mutator is preceded by a query that fills the cache it could leave stale and "
+        "followed by one that reads it. distinct = canonical JSON of the history; non-trivial = contains query -> mutator -> query on "
+        "the same cache")
 ASSUMPTIONS = [
-    "mutators are called on the owner objects named by the property (scenario, obstacle, prediction, lanelet network, lanelet, "
-    "traffic light / cycle); in-place edits of a child reached through a getter (prediction.trajectory.translate_rotate, a state "
-    "attribute, lanelet.translate_rotate on a lanelet that is already inside a network, cycle.cycle_elements.append, vertex setters) "
-    "are outside the listed mutators and not generated",
-    "rotation angles are 0 or larger than 0.05 in magnitude: below that translation_rotation_matrix is not a rigid motion (a C05 "
-    "finding), which would change segment lengths and make the kept Lanelet._distance differ for a reason that is not C11's",
+    "the mutators generated are the 24 of CR.Cache.Mut; three (cache, mutator) pairs are stale on the real code and recorded in "
+    "known-findings.txt with their own keys (C11_unsound_pairs): Trajectory.translate_rotate / append_state on the trajectory a "
+    "prediction holds vs occupancy_set, Lanelet.translate_rotate on a lanelet a network holds vs the spatial index; while such a "
+    "cache is tainted a stale answer is attributed to that mutator (the model still has to predict the exact stale answer)",
+    "NOT generated (outside the mutators the property lists): assignments to attributes of a state object, vertex setters of a "
+    "lanelet, cycle.cycle_elements.append, edits of an Occupancy returned by a query, and Trajectory.initial_time_step= (it "
+    "produces a trajectory the public constructor rejects, so 'freshly constructed from the current primary data' is undefined)",
     "add_lanelet / remove_lanelet with rtree=False ask for the index NOT to be rebuilt: lookups are compared with the model but "
     "not judged by the oracle until an add/remove with rtree=True has rebuilt it",
     "after a mutator raised (translate_rotate on 3-D vertices) the history ends: the property speaks about completed mutations",
@@ -48,11 +52,14 @@ ASSUMPTIONS = [
 ]
 TRUSTED = ["copy.deepcopy / pickle of numpy arrays and commonroad value objects reproduce the primary data"]
 
-# the rows of CR.Cache.table (item, mutator): every one of them must be exercised with the cache filled before the mutator
+# pairs (cache, mutator) of CR.Cache.act that the histories must exercise with the cache filled before the mutator: every pair in
+# which the mutator can reach the cache (action other than keep, or it writes a field the cache reads) — check_table() verifies
+# that none of those is missing here — plus the `keep` pairs whose harmlessness the histories confirm
 ROWS = [
     ("occupancySet", "predSetShape"), ("occupancySet", "predSetTrajectory"), ("occupancySet", "predSetWheelbase"),
     ("occupancySet", "predSetAssignment"), ("occupancySet", "predTranslateRotate"), ("occupancySet", "obsTranslateRotate"),
     ("occupancySet", "obsSetPrediction"), ("occupancySet", "obsUpdateInitialState"),
+    ("occupancySet", "trajTranslateRotate"), ("occupancySet", "trajAppendState"),
     ("initialOccupancy", "obsSetInitialState"), ("initialOccupancy", "obsSetShape"), ("initialOccupancy", "obsTranslateRotate"),
     ("initialOccupancy", "obsSetPrediction"), ("initialOccupancy", "obsUpdateInitialState"),
     ("laneletPolygon", "lanTranslateRotate"), ("laneletPolygon", "lanConvert2d"),
@@ -63,12 +70,17 @@ ROWS = [
     ("laneletInnerDistance", "netTranslateRotate"), ("laneletInnerDistance", "netConvert2d"),
     ("networkIndex", "netAddLanelet"), ("networkIndex", "netAddFromNetwork"), ("networkIndex", "netRemoveLanelet"), ("networkIndex", "netTranslateRotate"),
     ("networkIndex", "netConvert2d"), ("networkIndex", "netDeepcopy"), ("networkIndex", "netPickle"),
+    ("networkIndex", "lanTranslateRotate"), ("networkIndex", "lanConvert2d"),
     ("cycleInit", "cycSetElements"), ("cycleInit", "cycSetOffset"), ("cycleInit", "cycSetActive"),
 ]
+# the pairs CR.Cache.unsoundPairs lists (C11_unsound_pairs): stale on the real code, recorded in known-findings.txt
+UNSOUND = [("occupancySet", "trajTranslateRotate"), ("occupancySet", "trajAppendState"), ("networkIndex", "lanTranslateRotate")]
 REQUIRED_BUCKETS = [f"row/{i}/{m}" for i, m in ROWS] + [
     "fam/obs", "fam/net", "fam/lan", "fam/cyc", "wrap/scenario", "wrap/light", "obs/static", "obs/setbased", "obs/new-pred-queried",
     "hist/truncated", "hist/not-truncated", "hist/m=1", "hist/default-bound", "hist/bad-bound", "net/3d", "net/rtree-false",
-    "net/by-shape", "net/old-place", "net/add-from-refused", "lan/3d", "lan/3d-move-raises", "cyc/replace", "cyc/length-change"]
+    "net/by-shape", "net/old-place", "net/add-from-refused", "lan/3d", "lan/3d-move-raises", "cyc/replace", "cyc/length-change",
+    "mut/trajectory-same-object-reassigned", "hist/bound-lowered", "mut/held-trajectory-translate", "mut/held-trajectory-append",
+    "mut/member-lanelet-translate", "mut/member-lanelet-convert2d", "net/stale-entry-survives-rebuild"]
 
 TOL = 1e-9
 
@@ -204,12 +216,27 @@ def diagnose(case, idx):
     return None
 
 
-def stale(ctx, case, idx, site, fallback, text):
-    """Report a stale answer of query ops[idx]; the finding key names the query and the mutator that left it stale."""
+def stale(ctx, case, idx, site, fallback, text, taint=None):
+    """Report a stale answer of query ops[idx]; the finding key names the query and the mutator that left it stale.
+    `taint`: a mutator of the recorded unsound pairs (known-findings.txt) was applied to this cache and nothing has rebuilt it
+    since — then that mutator is named (the correspondence with the model still tells any other deviation apart)."""
     culprit = fallback
-    if not getattr(ctx, "no_diagnose", False):
+    if taint:
+        culprit = taint
+    elif not getattr(ctx, "no_diagnose", False):
         culprit = diagnose(case, idx) or fallback
-    ctx.fail(f"C11/{site}/stale-after/{culprit}", text.replace("{M}", culprit), case, {"op": idx})
+    key = f"C11/{site}/stale-after/{culprit}"
+    seen = getattr(ctx, "_c11_reported", None)
+    if seen is None:
+        seen = {}
+        try:
+            ctx._c11_reported = seen
+        except Exception:  # noqa
+            pass
+    seen[key] = seen.get(key, 0) + 1
+    if seen[key] > 4 and not isinstance(ctx, _Probe):
+        return      # a few reports per finding key are enough (the recorded findings would otherwise fill the failure list)
+    ctx.fail(key, text.replace("{M}", culprit), case, {"op": idx})
 
 
 # ------------------------------------------------------------------------------------------------ row coverage bookkeeping
@@ -247,7 +274,7 @@ class Rows:
 
 # ------------------------------------------------------------------------------------------------ building blocks
 
-ANGLES = [0.0, 0.0, math.pi / 2, -math.pi / 2, math.pi, 0.3, -0.7, 1.0, 2.5, -3.0, 6.0]
+ANGLES = [0.0, 0.0, math.pi / 2, -math.pi / 2, math.pi, 0.3, -0.7, 1.0, 2.5, -3.0, 6.0, 0.03, -0.01]
 
 
 def g_motion(r):
@@ -427,7 +454,7 @@ def gen_obs(ctx):
             if pred is not None:
                 kinds += ["p_tr", "p_tr"]
                 if pred["k"] == "traj":
-                    kinds += ["p_shape", "p_traj", "p_wb", "p_asg", "p_tr"]
+                    kinds += ["p_shape", "p_traj", "p_wb", "p_asg", "p_tr", "t_tr", "t_app"]
         k = r.choice(kinds)
         if k == "tr":
             t, a = g_motion_nz(r)
@@ -467,7 +494,20 @@ def gen_obs(ctx):
         elif k == "p_tr":
             t, a = g_motion_nz(r)
             ops.append(["p_tr", t, a])
-        if k == "update" and r.random() < 0.5 and len(ops) < 9:
+        elif k == "t_tr":
+            # the trajectory the prediction holds is moved on its own (prediction.trajectory.translate_rotate)
+            t, a = g_motion_nz(r)
+            ops.append(["t_tr", t, a])
+        elif k == "t_app":
+            # … or gets one more state (prediction.trajectory.append_state)
+            last = pred["traj"]["states"][-1]
+            new_state = [last[0] + 1.5, last[1] + 0.5, last[2], last[3]]
+            pred = dict(pred, traj={"t0": pred["traj"]["t0"], "states": pred["traj"]["states"] + [new_state]})
+            ops.append(["t_app", new_state])
+        if k == "update" and pred is None and r.random() < 0.3:
+            pred = {"k": "traj", "shape": g_shape(r), "traj": g_traj(r, t0 + 1), "queried": False}
+            ops.append(["set_pred", pred, "update_prediction"])      # a new prediction after the update dropped the old one
+        elif k == "update" and r.random() < 0.5 and len(ops) < 9:
             continue   # several updates in a row fill the history
         ops += queries()
         if len(ops) >= 12:
@@ -511,9 +551,10 @@ MUT_NAMES = {"tr": "Obstacle.translate_rotate", "set_init": "Obstacle.initial_st
              "set_pred": "DynamicObstacle.prediction=", "update": "DynamicObstacle.update_initial_state",
              "p_shape": "TrajectoryPrediction.shape=", "p_traj": "TrajectoryPrediction.trajectory=",
              "p_wb": "TrajectoryPrediction.wheelbase_lengths=", "p_asg": "TrajectoryPrediction.lanelet_assignment=",
-             "p_tr": "Prediction.translate_rotate"}
+             "p_tr": "Prediction.translate_rotate", "t_tr": "Trajectory.translate_rotate(held)", "t_app": "Trajectory.append_state(held)"}
 NET_NAMES = {"tr": "LaneletNetwork.translate_rotate", "add": "LaneletNetwork.add_lanelet", "add_from": "LaneletNetwork.add_lanelets_from_network", "remove": "LaneletNetwork.remove_lanelet",
-             "to2d": "LaneletNetwork.convert_to_2d", "deepcopy": "LaneletNetwork.deepcopy", "pickle": "LaneletNetwork.pickle"}
+             "to2d": "LaneletNetwork.convert_to_2d", "deepcopy": "LaneletNetwork.deepcopy", "pickle": "LaneletNetwork.pickle",
+             "l_tr": "Lanelet.translate_rotate(member)", "l_to2d": "Lanelet.convert_to_2d(member)"}
 LAN_NAMES = {"tr": "Lanelet.translate_rotate", "to2d": "Lanelet.convert_to_2d"}
 CYC_NAMES = {"set_es": "TrafficLightCycle.cycle_elements=", "set_off": "TrafficLightCycle.time_offset=", "set_active": "TrafficLightCycle.active=",
              "replace": "TrafficLight.traffic_light_cycle="}
@@ -567,6 +608,7 @@ def run_obs(ctx, case, model=True):
     v = 0
     last_mut = "construction"
     shape_obs = copy.deepcopy(obs.obstacle_shape)
+    taint = {"occ": None}     # the held-trajectory mutator applied since the occupancy cache was last dropped
 
     def oracle(kind, t, got, what, idx):
         item = "state" if kind == "q_state" else ("initialOccupancy" if (kind == "q_occ" and (not dynamic or t == obs.initial_state.time_step))
@@ -584,7 +626,7 @@ def run_obs(ctx, case, model=True):
         else:
             stale(ctx, case, idx, what, rows.blame(item),
                   f"{what}({t}) after {{M}} answers {json.dumps(got)[:160]}; an obstacle rebuilt from the current primary data answers "
-                  f"{json.dumps(want)[:160]}")
+                  f"{json.dumps(want)[:160]}", taint=taint["occ"] if item == "occupancySet" else None)
 
     for idx, op in enumerate(case["ops"]):
         k = op[0]
@@ -688,6 +730,8 @@ def run_obs(ctx, case, model=True):
             else:
                 if mm == 1:
                     ctx.tag("hist/m=1")
+                if bounds and mm < min(bounds) and len(exp_hist) + 1 > mm + 1:
+                    ctx.tag("hist/bound-lowered")
                 bounds.add(mm)
                 all_prev.append(prev[0])
                 exp_hist = (exp_hist + [prev[0]])[-mm:]
@@ -700,11 +744,28 @@ def run_obs(ctx, case, model=True):
             if isinstance(p, TrajectoryPrediction):
                 rows.mutate("occupancySet", "obsUpdateInitialState")
             m_ops.append(["update", v, st["t"], sg, ce, sh, mm])
-        elif k in ("p_shape", "p_traj", "p_wb", "p_asg", "p_tr"):
+        elif k in ("p_shape", "p_traj", "p_wb", "p_asg", "p_tr", "t_tr", "t_app"):
             if p is None:
                 v -= 1
                 continue
-            if k == "p_tr":
+            if k in ("t_tr", "t_app") and not isinstance(p, TrajectoryPrediction):
+                v -= 1
+                continue
+            if k == "t_tr":
+                # a mutator of the held trajectory: the prediction is not told (known finding, C11_witness_held_trajectory_translate)
+                r = call(p.trajectory.translate_rotate, np.array(op[1], dtype=float), op[2])
+                ctx.tag("mut/held-trajectory-translate")
+                rows.mutate("occupancySet", "trajTranslateRotate")
+                m_ops.append(["t_tr", v])
+            elif k == "t_app":
+                from commonroad.scenario.state import KSState
+                st_new = KSState(time_step=p.trajectory.final_state.time_step + 1, position=np.array(op[1][:2], dtype=float),
+                                 orientation=op[1][2], velocity=op[1][3])
+                r = call(p.trajectory.append_state, st_new)
+                ctx.tag("mut/held-trajectory-append")
+                rows.mutate("occupancySet", "trajAppendState")
+                m_ops.append(["t_app", v])
+            elif k == "p_tr":
                 r = call(p.translate_rotate, np.array(op[1], dtype=float), op[2])
                 rows.mutate("occupancySet", "predTranslateRotate")
                 m_ops.append(["p_tr", v])
@@ -750,6 +811,11 @@ def run_obs(ctx, case, model=True):
             raise InfraError(f"unknown obs op {k}")
         last_mut = "Scenario.translate_rotate" if (k == "tr" and op[3] == "scenario") else MUT_NAMES[k]
         rows.did(last_mut)
+        if r[0] == "ok":
+            if k in ("t_tr", "t_app"):
+                taint["occ"] = taint["occ"] or last_mut
+            elif k in ("tr", "p_tr", "p_shape", "p_traj", "p_wb", "set_pred") or (k == "update" and obs.prediction is None):
+                taint["occ"] = None      # these drop the occupancy cache (or bring another prediction object)
         snapshot(v)
         impl.append("ok" if r[0] == "ok" else {"err": r[1]})
         kinds.append(k)
@@ -992,8 +1058,30 @@ def gen_net(ctx):
             kinds += ["remove", "remove"]
         if wrap == "none":
             kinds += ["add_from"]
+        if present:
+            kinds += ["l_tr", "l_tr", "l_to2d"]
         k = r.choice(kinds)
         v += 1
+        if k in ("l_tr", "l_to2d"):
+            # a mutator of ONE lanelet the network holds: network.find_lanelet_by_id(id).translate_rotate(…) / .convert_to_2d()
+            flat = [lid for lid, z in present.items() if not z]
+            lid = r.choice(flat) if (flat and (k == "l_tr" and r.random() < 0.9)) else r.choice(sorted(present))
+            if k == "l_tr":
+                t, a = g_motion_nz(r)
+                ops.append(["l_tr", lid, t, a])
+                seen[lid].append(v)
+            else:
+                ops.append(["l_to2d", lid])
+                present[lid] = False
+            ops += queries()
+            if k == "l_tr" and r.random() < 0.5:
+                # something that rebuilds the tree from the stored polygons: the stale entry survives it
+                v += 1
+                ops.append([r.choice(["deepcopy", "pickle"])])
+                ops += queries()
+            if len(ops) >= 12:
+                break
+            continue
         if k == "add_from":
             sps = []
             for _i in range(r.choice([1, 2, 3])):
@@ -1115,8 +1203,9 @@ def run_net(ctx, case, model=True):
     m_ops, impl, kinds, qargs = [], [], [], []
     v = 0
     last_mut = "construction"
-    # an rtree=False call asked for a stale index; LaneletNetwork() builds no index at all before the first add/remove
-    suspended = case["built"] == "empty"
+    suspended = False       # an rtree=False call asked for a stale index (an empty LaneletNetwork() has an empty index, fix 790d303)
+    taint = {}              # lanelet id -> the member-level mutator that moved it since its index entry was last rebuilt
+    rebuilt_while_tainted = [False]
     lan_mut = {}            # lanelet id -> last lanelet-level mutator name
 
     for idx, op in enumerate(case["ops"]):
@@ -1147,9 +1236,11 @@ def run_net(ctx, case, model=True):
                     rows.agreed("networkIndex")
                 else:
                     site = "find_lanelet_by_position" if op[1] == "pos" else "find_lanelet_by_shape"
+                    if taint and rebuilt_while_tainted[0]:
+                        ctx.tag("net/stale-entry-survives-rebuild")
                     stale(ctx, case, idx, site, rows.blame("networkIndex"),
                           f"{site} after {{M}} answers {json.dumps(got)[:160]} for {json.dumps(pts)[:120]}; a network rebuilt from the "
-                          f"current lanelets answers {json.dumps(want)[:160]}")
+                          f"current lanelets answers {json.dumps(want)[:160]}", taint=next(iter(taint.values())) if taint else None)
             impl.append(got)
             kinds.append(k)
             qargs.append((op[1], pts))
@@ -1222,6 +1313,10 @@ def run_net(ctx, case, model=True):
             else:
                 suspended = False
             rows.mutate("networkIndex", "netRemoveLanelet")
+            if r[0] == "ok":
+                taint.pop(lid, None)          # the stale entry goes with its lanelet
+                if taint and rt:
+                    rebuilt_while_tainted[0] = True
             m_ops.append(["remove", lid, bool(rt)])
             out = "ok" if r[0] == "ok" else {"err": r[1]}
         elif k == "tr":
@@ -1230,6 +1325,8 @@ def run_net(ctx, case, model=True):
             rows.mutate("networkIndex", "netTranslateRotate")
             for it in LAN_ITEM.values():
                 rows.mutate(it, "netTranslateRotate")
+            if r[0] == "ok":
+                taint.clear()                 # the network-level translate_rotate rebuilds every entry
             m_ops.append(["tr", v])
             out = "ok" if r[0] == "ok" else {"err": r[1]}
         elif k == "to2d":
@@ -1239,7 +1336,32 @@ def run_net(ctx, case, model=True):
                 rows.mutate(it, "netConvert2d")
             m_ops.append(["to2d", v])
             out = "ok" if r[0] == "ok" else {"err": r[1]}
+        elif k in ("l_tr", "l_to2d"):
+            la = next((x for x in nw.lanelets if x.lanelet_id == op[1]), None)
+            if la is None:
+                v -= 1
+                continue
+            if k == "l_tr":
+                # known finding (C11_witness_member_lanelet): the network is not told, its index keeps the old polygon
+                r = call(la.translate_rotate, np.array(op[2], dtype=float), op[3])
+                ctx.tag("mut/member-lanelet-translate")
+                rows.mutate("networkIndex", "lanTranslateRotate")
+                for it in LAN_ITEM.values():
+                    rows.mutate(it, "lanTranslateRotate")
+                if r[0] == "ok":
+                    taint[op[1]] = NET_NAMES[k]
+                m_ops.append(["l_tr", op[1], v])
+            else:
+                r = call(la.convert_to_2d)
+                ctx.tag("mut/member-lanelet-convert2d")
+                rows.mutate("networkIndex", "lanConvert2d")
+                for it in LAN_ITEM.values():
+                    rows.mutate(it, "lanConvert2d")
+                m_ops.append(["l_to2d", op[1], v])
+            out = "ok" if r[0] == "ok" else {"err": r[1]}
         elif k in ("deepcopy", "pickle"):
+            if taint:
+                rebuilt_while_tainted[0] = True
             f = copy.deepcopy if k == "deepcopy" else (lambda x: pickle.loads(pickle.dumps(x)))
             if scen is not None:
                 r = call(f, scen)
@@ -1435,11 +1557,16 @@ GENS = [("obs", gen_obs, 5), ("net", gen_net, 4), ("lan", gen_lan, 2), ("cyc", g
 
 def check_table(ctx):
     t = ctx.driver.ask("C11", "table", {})
-    have = sorted((r["item"].split(".")[-1], r["mut"].split(".")[-1]) for r in t["rows"])
-    if have != sorted(ROWS):
-        raise InfraError(f"CR.Cache.table and harness/c11.py ROWS are out of step: {sorted(set(have) ^ set(ROWS))}")
-    for r in t["rows"]:
-        ctx.tag("table/" + r["action"].split(".")[-1])
+    pairs = {(r["item"].split(".")[-1], r["mut"].split(".")[-1]): r for r in t["rows"]}
+    touching = sorted(k for k, r in pairs.items() if r["touches"])
+    missing = [k for k in touching if k not in ROWS] + [k for k in ROWS if k not in pairs]
+    if missing:
+        raise InfraError(f"CR.Cache.act and harness/c11.py ROWS are out of step: {missing}")
+    unsound = sorted((a.split(".")[-1], b.split(".")[-1]) for a, b in t["unsound"])
+    if unsound != sorted(UNSOUND):
+        raise InfraError(f"CR.Cache.unsoundPairs {unsound} and harness/c11.py UNSOUND are out of step")
+    for k in ROWS:
+        ctx.tag("table/" + pairs[k]["action"].split(".")[-1])
 
 
 def run_case(ctx, case, model=True):
